@@ -18,10 +18,26 @@ pub trait SObj {
         panic!("setctr unsupported")
     }
     fn cl(&self) -> Box<dyn SObj>;
+    fn as_any(&self) -> &dyn std::any::Any;
+    /// `self.clone_from(src)` (Clone::clone_from may be overridden; by default it is `*self = src.clone()`)
+    fn clf(&mut self, src: &dyn SObj);
+}
+
+macro_rules! sobj_clone_from {
+    () => {
+        fn as_any(&self) -> &dyn std::any::Any {
+            self
+        }
+        fn clf(&mut self, src: &dyn SObj) {
+            let s = src.as_any().downcast_ref::<Self>().expect("HARNESS: clone_from between different types");
+            self.0.clone_from(&s.0)
+        }
+    };
 }
 
 macro_rules! sobj_common {
     () => {
+        sobj_clone_from!();
         fn process(&mut self, i: &[u8], outlen: usize) -> Vec<u8> {
             let mut o = dirty(outlen);
             self.0.process(i, &mut o);
@@ -141,6 +157,13 @@ impl<const R: usize> SObj for Portable<R> {
     }
     fn cl(&self) -> Box<dyn SObj> {
         Box::new(self.clone())
+    }
+    fn as_any(&self) -> &dyn std::any::Any {
+        self
+    }
+    fn clf(&mut self, src: &dyn SObj) {
+        let s = src.as_any().downcast_ref::<Self>().expect("HARNESS: clone_from between different types");
+        self.clone_from(s)
     }
 }
 
@@ -302,6 +325,15 @@ fn history(a: &[&str]) -> Vec<String> {
                         objs.push(None);
                     }
                     objs[dst] = Some(c);
+                    None
+                })
+            }
+            // cf.DST.SRC : objs[DST].clone_from(&objs[SRC]) (DST must exist)
+            "cf" => {
+                let src = usz(p[2]);
+                step(&mut out, || {
+                    let s = objs[src].as_ref().unwrap().cl();
+                    objs[o].as_mut().unwrap().clf(s.as_ref());
                     None
                 })
             }
